@@ -1136,3 +1136,118 @@ pub fn c07_service_level() -> (u64, Vec<Violation>) {
     }
     (reports, problems)
 }
+
+/* ------------------------------------------------------------------------------------ */
+/* C01, service level: an unauthenticated packet that merely *claims* X's id makes the     */
+/* handler ask the service for X's record — that query changes nothing about X            */
+/* ------------------------------------------------------------------------------------ */
+
+pub fn c01_service_level() -> (u64, Vec<Violation>) {
+    let mut problems = vec![];
+    let mut queries = 0u64;
+    for state in 0..3u8 {
+        for foreign_src in [false, true] {
+            let r: Result<(), Violation> = rt::run(async move {
+                let listen = ListenConfig::Ipv4 { ip: Ipv4Addr::new(10, 0, 0, 62), port: 9000 };
+                let mut node = SNode::start(SNodeSpec { keyno: 62, listen, enr: None }, |_| {}, true).await;
+                let x = record(63, 3, false, 6);
+                let x_addr: SocketAddr = x.udp4_socket().unwrap().into();
+                match state {
+                    0 => node.inject(HandlerOut::Established(x.clone(), x_addr, v::ConnectionDirection::Outgoing)).await,
+                    1 => node.inject(HandlerOut::Established(x.clone(), x_addr, v::ConnectionDirection::Incoming)).await,
+                    _ => node.discv5.add_enr(x.clone()).expect("add"),
+                }
+                let _ = node.drain_handler_in();
+                let _ = node.drain_events();
+                let before: Vec<(NodeId, Enr, bool, bool)> = node.discv5.table_entries().into_iter().map(|(i, e, s)| (i, e, s.is_connected(), s.is_incoming())).collect();
+                let src = if foreign_src { util::v4(203, 0, 113, 9, 4444) } else { x_addr };
+                let way = v::who_are_you_ref(NodeAddress { socket_addr: src, node_id: x.node_id() }, [7u8; 12]);
+                node.inject(HandlerOut::WhoAreYou(way)).await;
+                rt::settle().await;
+                let after: Vec<(NodeId, Enr, bool, bool)> = node.discv5.table_entries().into_iter().map(|(i, e, s)| (i, e, s.is_connected(), s.is_incoming())).collect();
+                let answered = node.drain_handler_in().into_iter().any(|h| matches!(h, HandlerIn::WhoAreYou(_, Some(e)) if e == x));
+                let replay = json!({"engine":"ssim","check":"C01","table_state":state,"foreign_source":foreign_src});
+                if before != after {
+                    return Err(Violation { clause: "X's routing-table entry changes only if the party proved to be X".into(), key: "service:whoareyou-query-changes-table".into(), detail: format!("a who-are-you query for X (packet from {src}) changed X's entry: {:?} -> {:?}", before.iter().map(|b| (b.2, b.3)).collect::<Vec<_>>(), after.iter().map(|b| (b.2, b.3)).collect::<Vec<_>>()), replay });
+                }
+                if !answered {
+                    return Err(Violation { clause: "harness".into(), key: "service:whoareyou-query-unanswered".into(), detail: "the service did not answer the query with X's known record".into(), replay });
+                }
+                if !node.drain_events().is_empty() {
+                    return Err(Violation { clause: "X is reported only if the party proved to be X".into(), key: "service:whoareyou-query-event".into(), detail: "an event was emitted for a mere who-are-you query".into(), replay: json!(null) });
+                }
+                Ok(())
+            });
+            queries += 1;
+            if let Err(v) = r {
+                problems.push(v);
+            }
+        }
+    }
+    (queries, problems)
+}
+
+/* ------------------------------------------------------------------------------------ */
+/* C08, service level: the public lookup by distances (`Discv5::nodes_by_distance`)       */
+/* ------------------------------------------------------------------------------------ */
+
+/// A real `Discv5` whose three highest buckets hold 16 / 5 / 2 entries: for distance lists with
+/// duplicates (adjacent and not), unsorted, with 0 and with out-of-range values the call returns the
+/// local record iff 0 is listed, then exactly the entries at the distinct listed distances in
+/// 1..=256, each once, up to the configured cap.
+pub fn c08_service_level() -> (u64, Vec<Violation>) {
+    let mut problems = vec![];
+    let mut calls = 0u64;
+    for cap in [16usize, 4] {
+        let r: Result<u64, Violation> = rt::run(async move {
+            let listen = ListenConfig::Ipv4 { ip: Ipv4Addr::new(10, 0, 0, 64), port: 9000 };
+            let node = SNode::start(SNodeSpec { keyno: 64, listen, enr: None }, |b| { b.max_nodes_response(cap); }, false).await;
+            let pool = key_pool(&node.id, 5000, 500);
+            for (d, n) in [(256u64, 16usize), (255, 5), (254, 2)] {
+                for k in pool.by_distance.get(&d).map(|v| v.iter().take(n).copied().collect::<Vec<_>>()).unwrap_or_default() {
+                    let _ = node.discv5.add_enr(record(k, 1, false, 8));
+                }
+            }
+            let table: Vec<(NodeId, Enr)> = node.discv5.table_entries().into_iter().map(|(i, e, _)| (i, e)).collect();
+            let lists: Vec<Vec<u64>> = vec![
+                vec![256], vec![255, 256], vec![256, 255, 256], vec![256, 256], vec![254, 256, 254, 255, 256], vec![0], vec![0, 256, 0], vec![256, 0, 255],
+                vec![257], vec![300, 256], vec![], vec![7], vec![255, 254], vec![254, 255, 254],
+            ];
+            let mut n = 0u64;
+            for list in &lists {
+                n += 1;
+                let got = node.discv5.nodes_by_distance(list.clone());
+                let replay = json!({"engine":"ssim","check":"C08","cap":cap,"distances":list});
+                let want_local = list.contains(&0);
+                let local = node.discv5.local_enr();
+                let has_local = got.iter().filter(|e| e.node_id() == local.node_id()).count();
+                if has_local != want_local as usize {
+                    return Err(Violation { clause: "a lookup by distances returns only nodes at those distances".into(), key: "service:by-distance:local".into(), detail: format!("distances {:?}: local record returned {has_local} times", list), replay });
+                }
+                let others: Vec<&Enr> = got.iter().filter(|e| e.node_id() != local.node_id()).collect();
+                let mut ids: Vec<[u8; 32]> = others.iter().map(|e| e.node_id().raw()).collect();
+                ids.sort();
+                let before = ids.len();
+                ids.dedup();
+                if ids.len() != before {
+                    return Err(Violation { clause: "a lookup by distances yields every matching node once".into(), key: "service:by-distance:duplicate".into(), detail: format!("distances {:?}: {} records, {} distinct", list, before, ids.len()), replay });
+                }
+                let wanted: Vec<&(NodeId, Enr)> = table.iter().filter(|(i, _)| list.contains(&util::log2_distance(&node.id, i))).collect();
+                for e in &others {
+                    if !wanted.iter().any(|(i, _)| *i == e.node_id()) {
+                        return Err(Violation { clause: "a lookup by distances returns only nodes at those distances".into(), key: "service:by-distance:foreign".into(), detail: format!("distances {:?}: a node at distance {} returned", list, util::log2_distance(&node.id, &e.node_id())), replay });
+                    }
+                }
+                if others.len() != wanted.len().min(cap) {
+                    return Err(Violation { clause: "a lookup by distances returns all nodes at those distances up to the cap".into(), key: "service:by-distance:count".into(), detail: format!("distances {:?}: {} returned, {} stored there, cap {cap}", list, others.len(), wanted.len()), replay });
+                }
+            }
+            Ok(n)
+        });
+        match r {
+            Ok(n) => calls += n,
+            Err(v) => problems.push(v),
+        }
+    }
+    (calls, problems)
+}
